@@ -36,7 +36,7 @@ class Unit:
         self.gen_failed = False
 
 
-def prepare_units(ctx, specs, bins, jobs=8):
+def prepare_units(ctx, specs, bins, jobs=8, driver_files=None):
     """Dump IR and generate+build the Go package for every spec (parallel)."""
     units = [Unit(*s) for s in specs]
 
@@ -55,7 +55,7 @@ def prepare_units(ctx, specs, bins, jobs=8):
         except Exception as e:  # noqa
             u.error = f"ir: {e!r}"
             return u
-        g = GenPkg(ctx.scratch, u.name, bins["tl2gen"], u.files, u.options)
+        g = GenPkg(ctx.scratch, u.name, bins["tl2gen"], u.files, u.options, driver_files=driver_files)
         if not g.generate():
             u.gen_failed = True
             u.error = "tl2gen: " + g.gen_log[-800:]
@@ -71,10 +71,12 @@ def prepare_units(ctx, specs, bins, jobs=8):
     return units
 
 
-def mutate_bytes(rng, b, tags):
-    """One mutation of a valid encoding."""
+def mutate_bytes(rng, b, tags, gentle=False):
+    """One mutation of a valid encoding.  gentle=True avoids mutations that create huge element
+    counts (for packages generated without the length-sanity check, whose readers allocate
+    `count` elements by design)."""
     b = bytearray(b)
-    k = rng.randrange(8)
+    k = rng.choice([0, 0, 3, 5]) if gentle else rng.randrange(8)
     if not b:
         return bytes([rng.getrandbits(8) for _ in range(rng.randrange(1, 9))])
     if k == 0:   # truncate
